@@ -6,6 +6,7 @@ import (
 	"crypto/sha256"
 	"encoding/json"
 	"fmt"
+	"golang.org/x/mod/sumdb/note"
 	"os"
 	"os/exec"
 	"sort"
@@ -104,7 +105,7 @@ func c05Scenarios(u *uni.U, gen *wh.CPGen, la, lb wh.LogCfg) []c05Scenario {
 		{Name: "S1", Props: "C05 C01", Why: "conflicting first use", Threads: [][]c05Op{{up(la, m, 0, 4)}, {up(la, f0, 0, 4)}, {get(la)}}},
 		{Name: "S2", Props: "C05 C01", Why: "two growths from 4, each valid alone, together a split view", Init: initA4,
 			Threads: [][]c05Op{{up(la, m, 4, 6)}, {up(la, f4, 4, 6)}, {get(la), get(la)}}},
-		{Name: "S3", Props: "C05", Why: "growth vs refresh: lost update / regression", Init: initA4,
+		{Name: "S3", Props: "C05 C04", Why: "growth vs refresh: lost update / regression", Init: initA4,
 			Threads: [][]c05Op{{up(la, m, 4, 6)}, {up(la, m, 4, 4)}, {get(la), get(la)}}},
 		{Name: "S4", Props: "C05 C12", Why: "different logs must not conflict", Init: []wh.Req{up(la, m, 0, 2).Req},
 			Threads: [][]c05Op{{up(la, m, 2, 4)}, {up(lb, m, 0, 3)}, {logs, get(la)}}},
@@ -440,6 +441,37 @@ func c05Check(gen *wh.CPGen, logs map[string]wh.LogCfg, initial map[string]strin
 			}
 		}
 	}
+	// Whatever is handed out - by an accepted Update or a read - is the text
+	// the log signed with the log's valid signature and exactly one valid
+	// line per witness key (C04's oracle under every interleaving).
+	u := gen.U
+	for _, e := range h {
+		var b []byte
+		switch {
+		case e.Op.Kind == "update" && e.Class == wh.OK:
+			b = []byte(e.Bytes)
+		case e.Op.Kind == "get" && e.Bytes != "":
+			b = []byte(e.Bytes)
+		default:
+			continue
+		}
+		text, sigs, ok := uni.SplitNote(b)
+		l, known := logs[e.Op.LogID]
+		if !ok || !known {
+			return "handed-out-not-a-note", fmt.Sprintf("%s returned bytes that are not a note: %s", e.Op.Label, c05History(gen, h))
+		}
+		if e.Op.Kind == "update" && text != e.Op.Req.Meta.Text {
+			return "cosigned-other-text", fmt.Sprintf("%s was accepted but the returned note is not the submitted text: %s", e.Op.Label, c05History(gen, h))
+		}
+		if _, v := countValid(l.Key.Verif, text, sigs); v < 1 {
+			return "handed-out-without-log-signature", fmt.Sprintf("%s returned a note without a valid signature of the log: %s", e.Op.Label, c05History(gen, h))
+		}
+		for _, wv := range []note.Verifier{u.W1.Verif, u.W1.CosigVerif} {
+			if n, v := countValid(wv, text, sigs); n != 1 || v != 1 {
+				return "handed-out-badly-cosigned", fmt.Sprintf("%s returned a note with %d lines / %d valid for witness key %s (want exactly one valid): %s", e.Op.Label, n, v, wv.Name(), c05History(gen, h))
+			}
+		}
+	}
 	return "", ""
 }
 
@@ -667,6 +699,8 @@ func c05Explore(run *ev.Run, prop, tier string) {
 			// preemption bound). The 4-thread scenario is capped in the quick
 			// tier / run to a larger cap in the thorough tier.
 			switch {
+			case !own && tier != "thorough":
+				// the legs of other properties: bounded search only in the quick tier
 			case nt <= 3:
 				jobs = append(jobs, job{sc.Name, store, -1, 0, 1, 0, true})
 			case tier == "thorough":
@@ -810,7 +844,7 @@ func c05Explore(run *ev.Run, prop, tier string) {
 			names = append(names, s.Name+": "+s.Why)
 		}
 		run.Set("concurrent_scenarios", names)
-		run.Set("concurrent_rule", "the scenarios above explored with the C05 engine: every interleaving of the real calls at storage-operation and lock granularity up to preemption bound 2, plus the complete unbounded search with visited-state pruning; every execution checked with porcupine against wmodel")
+		run.Set("concurrent_rule", "the scenarios above explored with the C05 engine: every interleaving of the real calls at storage-operation and lock granularity up to preemption bound 2 (quick) / 4 plus the complete unbounded search with visited-state pruning (thorough); every execution checked with porcupine against wmodel")
 		if !exh {
 			run.Set("concurrent_capped", true)
 		}
